@@ -132,8 +132,9 @@ def build(config="default", repo=REPO, verbose=False):
             json.dump(meta, fh)
         # keep only the 4 most recent cache entries per config
         ents = sorted((os.path.getmtime(os.path.join(base, d)), d) for d in os.listdir(base))
-        for _, d in ents[:-4]:
-            shutil.rmtree(os.path.join(base, d), ignore_errors=True)
+        for mt, d in ents[:-4]:
+            if time.time() - mt > 1800:          # never evict an entry another (concurrent) check may still be reading
+                shutil.rmtree(os.path.join(base, d), ignore_errors=True)
         return out, meta
     finally:
         fcntl.flock(lock, fcntl.LOCK_UN)
